@@ -18,6 +18,10 @@ VULS = ['None', 'NS', 'EW', 'Both']
 DECLS = ['N', 'E', 'S', 'W', '-']
 
 
+# every op is a call of a function whose result must not depend on earlier calls: also evaluated in other orders
+PURE_OPS = True
+
+
 def cases(ctx):
     for b in range(35):
         for x in (0, 1):
